@@ -35,7 +35,7 @@ ALPHABET = ['app1', 'app2x', 'applist', 'appscalar', 'app0', 'iter2', 'iter0',
             'itergen', 'set', 'ctx:app1+app1', 'trunc0', 'trunc1', 'truncm1', 'truncbelow', 'trunclen',
             'truncstr', 'badshape', 'badrank', 'modecycle', 'reopen']
 # additional ops for long random histories
-EXTRA = ['ctx:app1+iterfail_shape', 'ctx:app3+iterfail_raise', 'ctx:app1+app1+app1', 'ctx:set+iter2', 'ctx:applist+app2x', 'ctx:app0+app1', 'ctx:set+app3', 'app_zerod', 'iterfail_shape', 'iterfail_raise', 'iterfail_first', 'setscalar', 'trunclen1', 'truncfloat', 'truncmid', 'truncneg2', 'app3',
+EXTRA = ['badshape0', 'badrank0', 'md_bad', 'ctx:app1+iterfail_shape', 'ctx:app3+iterfail_raise', 'ctx:app1+app1+app1', 'ctx:set+iter2', 'ctx:applist+app2x', 'ctx:app0+app1', 'ctx:set+app3', 'app_zerod', 'iterfail_shape', 'iterfail_raise', 'iterfail_first', 'setscalar', 'trunclen1', 'truncfloat', 'truncmid', 'truncneg2', 'app3',
          'recreate', 'recreate_fill', 'md_set', 'md_pop', 'md_clear', 'itergen3', 'copy', 'copycast']
 STARTS = [(0,), (3,), (0, 2), (2, 2), (2, 1, 3)]
 
@@ -162,6 +162,14 @@ def build(op, ref, rng, meta):
         else:
             exp = REJECT
         return exp, lambda D, a, p: (D.truncate_array(a, idx), a)[1]
+    if op == 'badshape0':      # no rows, but the wrong trailing shape: still incompatible
+        bad = (0,) + (trail[:-1] + (trail[-1] + 1,) if trail else (2,))
+        x = np.zeros(bad, dtype=dtype)
+        return REJECT, lambda D, a, p: (a.append(x), a)[1]
+    if op == 'badrank0':       # an empty list has shape (0,): fine for 1-D arrays, wrong rank for N-D ones
+        return (ref if trail == () else REJECT), lambda D, a, p: (a.append([]), a)[1]
+    if op == 'md_bad':         # non-serialisable metadata: TypeError, nothing changes
+        return REJECT, lambda D, a, p: (a.metadata.update({'bad': {1.5, 2.5}, 'fine': 1}), a)[1]
     if op == 'badshape':
         bad = (1,) + (trail[:-1] + (trail[-1] + 1,) if trail else (2,))
         x = np.zeros(bad, dtype=dtype)
